@@ -316,4 +316,31 @@ theorem updated_old_is_previous (s : WSys) (hinv : LogInv s) (now : Nat) (r : Re
   · rw [hr', hver]
 
 
+/-! ### writes rejected by the backing store -/
+
+/-- **A write the backing store rejects leaves the state, every watch log and every watcher
+    untouched** (and fails): nothing is published for it, so replaying any watch stream still
+    reproduces the state. Rests on the regenerated order of collection.go's Create/Update/Destroy
+    (backing store call before the memory write and the publish). -/
+theorem rejected_write_untouched (s : WSys) (now : Nat) (op : Op) :
+    (s.storeOpBS true now op).1 = s ∨ (s.storeOpBS true now op) = s.storeOp now op := by
+  unfold WSys.storeOpBS
+  by_cases hc : (true && op.isWrite && (s.storeOp now op).2.isWrite) = true
+  · left; simp only [hc, if_true, Gen.Store.storeBeforeMemory]
+  · right; simp only [hc]; rfl
+
+/-- a rejected write is reported as an error, never as success -/
+theorem rejected_write_fails (s : WSys) (now : Nat) (op : Op)
+    (h : (s.storeOpBS true now op).1 ≠ (s.storeOp now op).1) :
+    (s.storeOpBS true now op).2.isErr = true := by
+  unfold WSys.storeOpBS at *
+  by_cases hc : (true && op.isWrite && (s.storeOp now op).2.isWrite) = true
+  · simp only [hc, if_true]; rfl
+  · simp only [hc] at h; exact absurd rfl h
+
+/-- without a rejection the backing store is invisible -/
+theorem accepted_write_same (s : WSys) (now : Nat) (op : Op) :
+    s.storeOpBS false now op = s.storeOp now op := by
+  simp [WSys.storeOpBS]
+
 end Cosi.C02
